@@ -467,6 +467,10 @@ func runC09(tier string, seed int64) *Outcome {
 	sf := saveFidelity(root, seed, tier)
 	sf.Idx = len(jobs) + 1
 	o.Results = append(o.Results, sf)
+	// several stores in one process
+	ms := multiStore(root, seed, tier)
+	ms.Idx = len(jobs) + 3
+	o.Results = append(o.Results, ms)
 	var keys []string
 	for k := range states {
 		keys = append(keys, k)
@@ -589,7 +593,7 @@ func readerRace(root string, seed int64, tier string, tmpdir string) *CaseResult
 func init() {
 	register(&Check{
 		ID: "C09", Level: "fault_enumeration",
-		Rule:        "victim process `pxcheck saver` performs 3 (thorough: 4) saves of self-describing snapshots (generation g has n_g jobs, each job names g and n_g; sizes 0..40 (300) jobs, payload strings of every JSON-escaping class) through the real JsonDataStore, with its saving goroutine locked to one OS thread; a dry run under strace counts the openat / write / close / rename* system calls of that thread and then EVERY k in 1..count is used as a crash point (strace inject=<sc>:signal=SIGKILL:when=k) and every k (write: every 3rd / 2nd) as an I/O fault point (ENOSPC / EMFILE / EIO), plus SIGKILLs at PRNG-chosen microsecond offsets; after each run a FRESH process loads the directory (JsonDataStore.Load and an independent encoding/json decode) and the visible generation must be the last acknowledged one or the next one, complete; a failed save must report an error and leave the previous snapshot; half of the victims and a second reader race run with TMPDIR on another file system than the data directory; plus 1 writer vs 4 readers in-process (every read one complete generation, never going backwards); plus sequences of 60 saves on one store instance whose consecutive snapshots differ by one small edit (same encoded length: status, digit, swap of two jobs, rename; identical repeats; returns to an earlier content; add / drop a job; the empty snapshot; a new store instance on the same directory in the middle of the sequence) - after every acknowledged save a fresh store instance and an independent decoder must return exactly that snapshot. evaluations = injection runs + reader reads; a situation is (injection kind, system call, visible generation, temp files left, acknowledged generation, failed saves)",
+		Rule:        "victim process `pxcheck saver` performs 3 (thorough: 4) saves of self-describing snapshots (generation g has n_g jobs, each job names g and n_g; sizes 0..40 (300) jobs, payload strings of every JSON-escaping class) through the real JsonDataStore, with its saving goroutine locked to one OS thread; a dry run under strace counts the openat / write / close / rename* system calls of that thread and then EVERY k in 1..count is used as a crash point (strace inject=<sc>:signal=SIGKILL:when=k) and every k (write: every 3rd / 2nd) as an I/O fault point (ENOSPC / EMFILE / EIO), plus SIGKILLs at PRNG-chosen microsecond offsets; after each run a FRESH process loads the directory (JsonDataStore.Load and an independent encoding/json decode) and the visible generation must be the last acknowledged one or the next one, complete; a failed save must report an error and leave the previous snapshot; 8 store instances on 8 directories save and load concurrently in one process (each file must hold its own store's last acknowledged snapshot); half of the victims and a second reader race run with TMPDIR on another file system than the data directory; plus 1 writer vs 4 readers in-process (every read one complete generation, never going backwards); plus sequences of 60 saves on one store instance whose consecutive snapshots differ by one small edit (same encoded length: status, digit, swap of two jobs, rename; identical repeats; returns to an earlier content; add / drop a job; the empty snapshot; a new store instance on the same directory in the middle of the sequence) - after every acknowledged save a fresh store instance and an independent decoder must return exactly that snapshot. evaluations = injection runs + reader reads; a situation is (injection kind, system call, visible generation, temp files left, acknowledged generation, failed saves)",
 		Assumptions: []string{"process death is modelled by SIGKILL at system call boundaries of the saving thread plus random instants; power loss (no fsync in the code) is outside the statement", "rename(2) atomicity of the kernel is trusted"},
 		Custom:      runC09,
 		MinDistinct: 12,
